@@ -8,4 +8,5 @@ pub mod emit;
 pub mod strat;
 pub mod rschema;
 pub mod hist;
+pub mod pairs;
 pub use serde_json;
